@@ -2,14 +2,36 @@
 from driver.common import Case, dd_chunks
 
 ID = "C05"
-LEVEL_TEXT = "Lean theorems: the Go codon translation over the regenerated tables equals the NCBI-table meaning for every byte triple and all 3 codes (17^3 representatives by kernel evaluation, lifted to all bytes), plus frame/length/error theorems by induction over sequences; tied to /repo by table regeneration and an exhaustive 3x38^3 codon correspondence run. CodonAlign / TranslateByReference: see evidence 'partial'."
+LEVEL_TEXT = ("Lean theorems: the Go codon translation over the regenerated tables equals the NCBI-table meaning for every byte triple and "
+              "all 3 codes (17^3 representatives by kernel evaluation, lifted to all bytes); frame/length/error theorems by induction over "
+              "sequences; three-frame naming and count, cached length; CodonAlign: 3x length, ungapped rows = original nucleotides minus <= 2 "
+              "trailing, and threading nucleotides onto a gapped copy of their own translation succeeds and translates back (all 3 codes, all "
+              "gap placements); TranslateByReference: rectangular result in every frame, equal to plain translation in every frame when no "
+              "row has a gap, frame-0 reference row (gaps removed) a prefix of the translation of the ungapped reference, exact error "
+              "conditions; tied to /repo by table regeneration, an exhaustive 3x38^3 codon correspondence run and differential "
+              "correspondence of the container operations with the property's predicates evaluated on the implementation's rows.")
 LEVEL_NOTE = 'Trusted: Lean kernel; tools/extract transcription of const.go; correspondence harness; NCBI tables 1,2,5 transcribed in Spec/Genetic.lean; model validated on generated cases only.'
 TECHNIQUE = 'Lean 4 proof (decide +kernel over regenerated tables, induction) + differential correspondence'
 LEAN_MODULES = ["Gv.Props.C05"]
 REQUIRED_THEOREMS = ["Gv.Props.C05." + n for n in [
     "geneticCode_dispatch", "translateCodon_eq_spec", "translate_length", "translate_error_iff",
-    "translate_residue"]]
-RULE = ("exhaustive: 3 genetic codes x 38^3 codons over {ACGTU + 11 IUPAC codes} in both cases, '-', and the "
+    "translate_residue", "gap_codon", "codon_gap_iff", "translate_eq_codons",
+    "codonAlign_rows", "codonAlign_length", "codonAlign_ungapped_rows", "codonAlign_translates_back",
+    "byRef_rectangular", "byRef_eq_translate_of_no_gaps_partial", "byRef_short_returns_empty_rows",
+    "byRef_no_gaps_counterexample", "byRef_ref_row_prefix",
+    "byRef_error_iff", "three_frames_names_and_count", "one_frame_names_and_count", "alignTranslate_length"]]
+PARTIAL = ["TranslateByReference vs plain translation on an alignment without gaps that is shorter than 3+phase: plain translation is an "
+           "error, the reference-guided one returns rows without residues (theorem byRef_short_returns_empty_rows; both behaviours are "
+           "modelled as they are and confirmed on the implementation, tag byref-*; kernel-checked instance byRef_no_gaps_counterexample); byRef_eq_translate_of_no_gaps_partial therefore speaks about "
+           "the rows on which plain translation succeeds",
+           "TranslateByReference is modelled for phase >= 0 (a negative phase indexes the reference row at -1: run-time panic, outside the "
+           "property's frames 0,1,2); rows are assumed to have the length of the reference row (alignment invariant, C01)",
+           "SeqBag.Translate renames colliding output names (name_0001 ...): collisions between '<a>_0' style names and existing names are "
+           "not modelled (oracle: unmodelled)"]
+RULE = ("CodonAlign: 1..4 rows, protein rows = gapped translations of random A/C/G/T sequences with 0..2 trailing bases, plus too "
+        "short / too long / missing nucleotide sequences and arbitrary protein letters; TranslateByReference: 1..4 rows x 0..24 columns, "
+        "gap-free / random gaps / gap runs, frames 0..2, unknown and empty reference names, an invalid code; "
+        "exhaustive: 3 genetic codes x 38^3 codons over {ACGTU + 11 IUPAC codes} in both cases, '-', and the "
         "nucleotide-compatible unknown symbols ? * . X x, packed 300 codons per call; random sequences of length "
         "0..40 x frames 0..2 x codes incl. an invalid code; sequences with protein-only / unknown letters (error "
         "path); non-trivial = codon with an ambiguity/gap/unknown symbol, or frame 1-2")
